@@ -4,7 +4,7 @@ from engine.registry import Registry
 from engine import sortmodel, polymodel
 from contracts import option, sorting, align, compare, order_lemmas, leading, dispatch, construct, dispatchfn, baseclass, derivative, division, statics, call, codec, shapefn, display, polynomial, numeric, multiply, indexing
 
-_CONTRACT_MODULES = [option, sorting, align, compare, leading, dispatch, construct, dispatchfn, baseclass, derivative, division, call, codec, shapefn, polynomial, numeric, multiply, indexing]
+_CONTRACT_MODULES = [option, sorting, align, compare, leading, dispatch, construct, dispatchfn, baseclass, derivative, division, call, codec, shapefn, polynomial, numeric, multiply, indexing, display]
 
 ALL_CONTRACTS = {}
 for _m in _CONTRACT_MODULES:
@@ -25,6 +25,8 @@ def build_registry():
     shapefn.install_axioms(reg)
     numeric.install_axioms(reg)
     polynomial.install_axioms(reg)
+    from engine import textmodel
+    textmodel.install(reg)
     for c in ALL_CONTRACTS.values():
         def model(ex, args, kw, node, _c=c):
             ex.reg.used.add("contract:" + _c.name)
@@ -315,16 +317,26 @@ PROPS = {
                 trusted_base=COMMON_TRUSTED + ["pickle/copy protocol of CPython and numpy's array pickling", "contract of polynomial_from_attributes (proved under C03)"],
                 assumptions=["B1 (abstract value depends only on the sparse coefficient map)"],
                 not_decided=["savetxt/loadtxt round trip (bounded only)", ".copy() itself is numpy's ndarray.copy (trusted) + __array_finalize__ (proved)"]),
-    "C16": dict(level="other", contracts=["numpoly.glexsort"], statics=[display.static_obligations],
+    "C16": dict(level="other", contracts=["numpoly.glexsort", "numpoly.array_repr._to_string"], statics=[display.static_obligations],
                 explanation="Order clause: static obligations (AST of array_repr.py, every run) establish that _to_string visits the "
                 "terms in the order numpoly.glexsort returns for the exponent rows with graded/reverse taken from the display_graded/"
                 "display_reverse options of the current option map, reversed exactly when display_inverse is set, one chunk appended "
                 "per visited term and the chunks joined in list order; glexsort's contract (a permutation sorting in (graded)(reverse) "
-                "lexicographic order) is re-posed here. Denotation clause (the text reads back as the polynomial under every display "
-                "option, coefficient type and shape; to_sympy round trip): depends on str(number), numpy.array2string and a parser - "
-                "no contract within the solver's reach expresses it; bounded run-time contract check with an independent parser "
-                "(conc/checks_c16.py).", trusted_base=COMMON_TRUSTED,
-                not_decided=["denotation clause of str/repr and to_sympy (bounded only)", "sign/elision logic of the chunks (bounded only)"]),
+                "lexicographic order) is re-posed here. Denotation clause, for ONE polynomial (the unit every array display is made "
+                "of): _to_string is executed symbolically for any number of terms, arbitrary real coefficients and exponents, arbitrary "
+                "display option strings, 1 and 2 indeterminates, suppress_small off or symbolic; at every `output.append` the chunk "
+                "(a sequence of tokens: literal signs, str(coefficient), names, option strings, str(exponent)) is read back by an "
+                "independent token-level reader and the obligations say: the number printed - or the elided 1 / -1 - IS the coefficient "
+                "of the visited term; every indeterminate occurs at most once and with exactly its stored exponent (absent iff 0); only "
+                "the polynomial's names occur; a chunk is never empty; every chunk after the first starts with a sign and '+' is put "
+                "only before a non-negative number; a term is left out only if its coefficient is zero or (on request) below the "
+                "suppression threshold; the visiting order is a permutation of all stored terms. What the characters of str(number) "
+                "are, numpy.array2string for arrays, complex coefficients and to_sympy: bounded run-time check with an independent "
+                "character-level parser (conc/checks_c16.py).", trusted_base=COMMON_TRUSTED + [
+                    "text axioms of engine/textmodel.py: str(c) is never '', '+' or '-' and starts with '-' exactly for c < 0; names are identifiers"],
+                assumptions=["A1 (real coefficients)", "token-level reading: option strings act as separators (characters: bounded check)",
+                             "indeterminate counts 1 and 2 enumerated"],
+                not_decided=["characters of str(number) and of numpy.array2string (array layout), complex / NaN coefficients, to_sympy (bounded only)"]),
     "C03": dict(
         level="other",
         contracts=["numpoly.remove_redundant_coefficients", "numpoly.remove_redundant_names", "numpoly.postprocess_attributes",
